@@ -101,3 +101,38 @@ def oneshot_sessions(rng, os_keys, plain, T):
         release(k); gap()
     toks.append('t%d' % (T + 40))
     return toks
+
+
+# ---- processing-loop pairs (shared by the checks whose property has a timing the loop must not sleep through) ----
+def loop_pairs(cases):
+    """for each ksim case: the same history run once honouring can_block_update_idle_waiting before every millisecond (B1: a blocked
+    millisecond runs no tick) and once ticking regardless (B0)"""
+    out = []
+    for c in cases:
+        h = [t for t in c['hist'] if t != 'q']
+        for mode in ('0', '1'):
+            out.append(dict(c, id='%s-B%s' % (c['id'], mode), hist=['B' + mode] + h + ['t50'], loop_pair=c['id'], loop_mode=mode,
+                            tags=dict(c.get('tags') or {}, loop='B' + mode)))
+    return out
+
+
+def loop_pair_violations(all_results):
+    import re
+    from checks.c07 import dedup_releases
+    by = {c['id']: (c, it) for c, it, mt in all_results}
+    out = []
+    for cid, (c, it) in by.items():
+        if c.get('loop_mode') != '1' or not it or it[0].startswith('PARSE'):
+            continue
+        other = by.get(c['loop_pair'] + '-B0')
+        if not other or not other[1]:
+            continue
+        a = [dedup_releases(re.sub(r' nstates=\d+', '', l)) for l in it if not l.startswith(('DM@', 'INFO '))]
+        b = [dedup_releases(re.sub(r' nstates=\d+', '', l)) for l in other[1] if not l.startswith(('DM@', 'INFO '))]
+        if a != b:
+            k = 0
+            while k < min(len(a), len(b)) and a[k] == b[k]:
+                k += 1
+            out.append((c, it, None, 'blocking whenever can_block_update_idle_waiting allows it changes the behaviour: blocking run [%s], '
+                                     'always-ticking run [%s]' % (a[k] if k < len(a) else '<end>', b[k] if k < len(b) else '<end>')))
+    return out
